@@ -93,7 +93,7 @@ def targets(lay):
         if not r["hidden"]:
             names[r["name"]] = names.get(r["name"], 0) + 1
     for i, r in enumerate(lay["regs"], 1):
-        if r["hidden"] or r["name"] in sig or names.get(r["name"], 0) != 1 or r.get("preset_ambiguous"):
+        if r["hidden"] or r["name"] in sig or names.get(r["name"], 0) != 1 or r.get("preset_ambiguous") or r.get("binfree") or r["comp"].startswith("unknown"):
             continue
         if r["parent"] and lay["regs"][r["parent"] - 1]["name"] in sig:
             continue
@@ -227,15 +227,14 @@ def project(ad, obj, lay):
     if obj is None:
         return False, [[-1] if r["kind"] == "leaf" else [] for r in lay["regs"]]
     if ad.kind in ("xmcd", "tz"):
-        vals = ad.raw_values(obj, lay)
         if ad.kind == "tz":
+            vals = ad.raw_values(obj, lay)
             struct = list(obj.presets.keys()) == [r["name"] for r in lay["regs"]]
         else:
+            vals, real_names = ad.raw_values(obj, lay, with_names=True)
             struct = all(v is not None or r["kind"] != "leaf" or r["cond"]["c"] != 0 for r, v in zip(lay["regs"], vals))
-            hn = [x.name for x in obj.header.registers]
-            bn = [x.name for x in obj.config_block.registers]
             ln = [r["name"] for r in lay["regs"] if r["parent"] == 0]
-            struct = struct and all(x in ln for x in hn + bn)
+            struct = struct and all(x in ln for x in real_names)
         return struct, [([] if r["kind"] != "leaf" else [-1] if v is None else A.bits_of(v)) for r, v in zip(lay["regs"], vals)]
     al = aligned_registers(ad, obj, lay)
     real_tops = list(ad.registers(obj))
@@ -508,6 +507,11 @@ SCHED_VALUES = [{"a": "NewObject"}, {"a": "SetValues", "cls": "field", "val": "m
 # areas whose database content is identical to an area that runs the full schedules (alias families, unchanged revisions)
 SCHED_ALIAS = [{"a": "NewObject"}, {"a": "SetValues", "cls": "field", "val": "mix", "n": 4}, {"a": "Export"}, {"a": "Parse"}, {"a": "Export"}, {"a": "NewObject"}, {"a": "Export"}]
 SCHED_ALIAS_NOBIN = [{"a": "NewObject"}]
+# XMCD objects deep-copy their register files (and with them the device database) on every access: short schedules in the quick tier
+SCHED_TEMPLATE_SHORT = [{"a": "NewObject"}, {"a": "Template"}, {"a": "LoadConfig"}, {"a": "Export"}, {"a": "Parse"}, {"a": "Export"}]
+SCHED_VALUES_SHORT = [{"a": "NewObject"}, {"a": "SetValues", "cls": "field", "val": "mix", "n": 8}, {"a": "Export"}, {"a": "Parse"}, {"a": "Export"}, {"a": "GetConfig", "check": True},
+                      {"a": "LoadConfig"}, {"a": "Export"}, {"a": "NewObject"}, {"a": "Export"}]
+SLOW_KINDS = ("xmcd",)
 
 
 def rich_hash(lay):
@@ -527,7 +531,7 @@ def layout_job(ident):
 
 def area_job(job):
     """Worker of phase 2: one area, several schedules -> layout for the spec + traces."""
-    t0 = time.time()
+    t0 = time.process_time()
     ident = job["area"]
     ad = A.make(ident)
     try:
@@ -544,11 +548,11 @@ def area_job(job):
     info = {"groups": [{"name": g["name"], "declared": g.get("decl_width", 0), "present": g.get("subs_width", 0), "missing": g.get("missing_subs", [])}
                        for g in lay["regs"] if g["kind"] == "group" and (g.get("missing_subs") or (g.get("decl_width") and g["decl_width"] != g.get("subs_width")))],
             "notes": lay.get("notes", [])[:5], "files": [os.path.relpath(f, os.environ.get("VERIF_REPO", "/repo")) for f in lay.get("files", [])]}
-    return {"area": ident, "layhash": h, "lay": tl, "names": names, "traces": traces, "info": info, "wall": time.time() - t0}
+    return {"area": ident, "layhash": h, "lay": tl, "names": names, "traces": traces, "info": info, "wall": time.process_time() - t0}
 
 
 # ------------------------------------------------------------------ TLC side
-REQ_ACTIONS = ("NewObject", "Template", "GetConfig", "LoadConfig", "DoSetValues", "DoExport", "Parse")
+REQ_ACTIONS = ("MCNewObject", "MCTemplate", "MCGetConfig", "MCLoadConfig", "MCSetValues", "MCExport", "MCParse")
 
 
 def write_layouts(layouts, name):
@@ -578,23 +582,33 @@ def validate(v, results, label):
     if not traces:
         return {}, names
     lay_file = write_layouts(layouts, f"c12-layouts-{label}.json")
+    # chunks are validated by concurrent TLC runs (one JVM each); numeric ids keep TLC's REJ lines short (long tuples are wrapped)
+    traces.sort(key=lambda t: -sum(len(e.get("post") or e.get("bin") or []) for e in t["ev"]))
+    nchunks = max(1, min(12, len(traces) // 40))
+    chunks = [traces[k::nchunks] for k in range(nchunks)]
+
+    def tv_chunk(k):
+        chunk = chunks[k]
+        tlc._counter[0] = 1000 * (k + 1)            # forked children share the scratch directory: keep file names apart
+        slim = [{"id": n, "lay": t["lay"], "ev": t["ev"]} for n, t in enumerate(chunk)]
+        rej, res = tlc.tv(SPEC, "CfgAreaTrace", slim, env={"LAYOUT_FILE": lay_file}, heap="6g", timeout=1500)
+        check_tv_output(res, rej)
+        return {chunk[n]["id"]: x for n, x in rej.items()}, res.distinct
+
     rej_all = {}
-    # batches keep the JSON files and the JVM heap moderate; numeric ids keep TLC's REJ lines short (long tuples are wrapped)
-    size = 600
-    for k in range(0, len(traces), size):
-        chunk = traces[k:k + size]
-        ids = [t["id"] for t in chunk]
-        for n, t in enumerate(chunk):
-            t["id"] = n
-        rej, res = tlc.tv(SPEC, "CfgAreaTrace", chunk, env={"LAYOUT_FILE": lay_file}, heap="10g", timeout=1500)
-        for n, t in enumerate(chunk):
-            t["id"] = ids[n]
-        v.traces(len(chunk))
-        v.extra["tv_states"] = v.extra.get("tv_states", 0) + res.distinct
-        if "REJ" in res.out and len(rej) != res.out.count('<<"REJ"'):
-            raise Machinery("a REJ line of the trace validation could not be read back")
-        rej_all.update({ids[n]: x for n, x in rej.items()})
+    for rej, distinct in pmap(tv_chunk, range(nchunks), procs=min(nchunks, 8), chunksize=1) if nchunks >= 4 else [tv_chunk(k) for k in range(nchunks)]:
+        rej_all.update(rej)
+        v.extra["tv_states"] = v.extra.get("tv_states", 0) + distinct
+    v.traces(len(traces))
     return rej_all, names
+
+
+def check_tv_output(res, rej):
+    """The shared driver does not know every way a TLC run can end early: be strict here."""
+    if "Model checking completed" not in res.out or any(l.startswith("Error:") for l in res.out.splitlines()):
+        raise Machinery("trace validation did not run to completion:\n" + "\n".join(l for l in res.out.splitlines() if not l.startswith(("Parsing", "Semantic", "Linting", "Computed")))[-1500:])
+    if len(rej) != res.out.count('<<"REJ"'):
+        raise Machinery("a REJ line of the trace validation could not be read back")
 
 
 KEEP = {"a", "ok", "struct", "post", "yaml", "schema", "w", "seal", "size", "gaps", "eqprev", "rotkh", "crc", "bin", "verified"}
@@ -711,16 +725,17 @@ def run(tier):
         is_rep = json.dumps(ident, sort_keys=True) in reps
         if is_rep or tier != "quick":
             n_full += 1
-            sl = [("template", SCHED_TEMPLATE), ("values", SCHED_VALUES)]
+            short = tier == "quick" and a["kind"] in SLOW_KINDS
+            sl = [("template", SCHED_TEMPLATE_SHORT), ("values", SCHED_VALUES_SHORT)] if short else [("template", SCHED_TEMPLATE), ("values", SCHED_VALUES)]
             pick = rng(PROP, "subset", json.dumps(ident, sort_keys=True)).random()
-            if tier != "quick" or pick < 0.34:
+            if tier != "quick" or (pick < 0.34 and not short):
                 for k in range(2 if tier == "quick" else 5):
                     sl.append((f"hist{k}", scheds[(idx * 7 + k) % len(scheds)]))
             if a["kind"] == "cmpa":
                 sl.append(("rotkeys", [{"a": "NewObject"}, {"a": "SetValues", "cls": "rotkh", "mode": "keys", "nkeys": 1}, {"a": "Export"}, {"a": "Parse"}, {"a": "Export"},
                                        {"a": "SetValues", "cls": "rotkh", "mode": "keys", "nkeys": 2, "big": False}, {"a": "Export"}]))
         else:
-            sl = [("alias", SCHED_ALIAS if A.KINDS[a["kind"]].has_binary else SCHED_ALIAS_NOBIN)]
+            sl = [("alias", SCHED_ALIAS if (A.KINDS[a["kind"]].has_binary and a["kind"] not in SLOW_KINDS) else SCHED_ALIAS_NOBIN)]
         jobs.append({"area": ident, "scheds": sl})
     # heavy kinds first, so that the pool is balanced
     weight = {"fuses": 9, "cmpa": 6, "cfpa": 6, "tz": 5, "romcfg": 4, "fcb": 3, "xmcd": 3, "bca": 2, "fcf": 2, "cmactable": 2, "memcfg": 1}
@@ -733,7 +748,12 @@ def run(tier):
     slow = sorted(results, key=lambda x: -x["wall"])[:6]
     v.extra["slowest_areas_s"] = {A.make(x["area"]).key(): round(x["wall"], 1) for x in slow}
     v.extra["cpu_s_real_runs"] = round(sum(x["wall"] for x in results), 1)
-    say(f"[C12] cpu {v.extra['cpu_s_real_runs']}s, slowest: {v.extra['slowest_areas_s']}")
+    bykind = {}
+    for x in results:
+        k = x["area"]["kind"] + ("" if len(x["traces"]) > 2 else "(alias)")
+        bykind[k] = round(bykind.get(k, 0) + x["wall"], 1)
+    v.extra["cpu_s_by_kind"] = bykind
+    say(f"[C12] cpu {v.extra['cpu_s_real_runs']}s {bykind}, slowest: {v.extra['slowest_areas_s']}")
     n_ev = sum(len(t["ev"]) for x in results for t in x["traces"])
     v.count(n_ev)
     for x in results:
@@ -807,7 +827,8 @@ def canary(v, good, res):
     b2["ev"][i2]["size"] += 4
     lay_file = write_layouts([res["lay"]], "c12-canary-layout.json")
     g["id"], b1["id"], b2["id"] = 0, 1, 2
-    rej, _ = tlc.tv(SPEC, "CfgAreaTrace", [g, b1, b2], env={"LAYOUT_FILE": lay_file}, heap="4g")
+    rej, cres = tlc.tv(SPEC, "CfgAreaTrace", [g, b1, b2], env={"LAYOUT_FILE": lay_file}, heap="4g")
+    check_tv_output(cres, rej)
     rej = {["canary-good", "canary-state", "canary-size"][k]: x for k, x in rej.items()}
     if set(rej) != {"canary-state", "canary-size"} or rej["canary-size"][3] != "SizeFixed" or rej["canary-state"][3] != "SetValues":
         raise Machinery(f"canary failed: rejected {rej} (expected canary-state at clause SetValues and canary-size at clause SizeFixed only)")
@@ -851,7 +872,9 @@ def replay(path):
         elif name == "values":
             sched = SCHED_VALUES
         elif name == "alias":
-            sched = SCHED_ALIAS if ad.has_binary else SCHED_ALIAS_NOBIN
+            sched = SCHED_ALIAS if (ad.has_binary and ad.kind not in SLOW_KINDS) else SCHED_ALIAS_NOBIN
+        if body.get("tier") == "quick" and ad.kind in SLOW_KINDS and name in ("template", "values"):
+            sched = SCHED_TEMPLATE_SHORT if name == "template" else SCHED_VALUES_SHORT
         if sched is None:
             # generated schedule: rebuild the steps from the witness (classes are re-concretised with the same seed)
             sched = []
@@ -862,7 +885,8 @@ def replay(path):
     t["ev"] = [strip_event(e) for e in t["ev"]]
     lay_file = write_layouts([tl], "c12-replay-layout.json")
     t["id"] = 0
-    rej, _ = tlc.tv(SPEC, "CfgAreaTrace", [t], env={"LAYOUT_FILE": lay_file}, heap="4g")
+    rej, rres = tlc.tv(SPEC, "CfgAreaTrace", [t], env={"LAYOUT_FILE": lay_file}, heap="4g")
+    check_tv_output(rres, rej)
     if rej:
         rj = rej[0]
         say(f"VIOLATION property=C12 replay={path}")
